@@ -851,9 +851,9 @@ pub fn main(args: &[String]) {
     w.flush();
     sum.case_files = w.files.clone();
     sum.rule = match focus.as_str() {
-        "c11" => "scripted service A (real Service event loop) issues a FINDNODE (lookup for a target in a chosen log2-distance class from the peer, user-designated distance list, or internal ENR request) and receives NODES packets that are either produced by a second real service B (the honest responder, table filled from 640 fixed identities) or scripted (off-distance records, requester's own record, duplicates, arbitrary totals, packets after completion); non-trivial = at least one record reached the distance filter; distinct = new hash of (distance list shape, per-packet outcome)".to_string(),
-        "c12" => "sequences of session reports, NODES answers to lookups (discovered records), pings, pongs, request failures, unverifiable-record reports and user calls (add_enr, remove_node, disconnect_node) against a scripted service in a random IP mode with a random table filter; record shapes: no address, v4, v6, both, mapped v6, lower/equal/higher seq; non-trivial = the table changed at least 3 times; distinct = new hash of the op/result trace".to_string(),
-        _ => "FINDNODE requests (distance lists: empty, duplicates, unsorted, out of range, long) with request ids of 0..8 bytes and PINGs from random addresses (port 0 included) against a scripted service whose table holds records of 100..300 bytes; every emitted NODES response is encoded, sealed with AES-GCM and packet-encoded by the real codec; non-trivial = some answer had at least one record; distinct = new hash of the answer shapes".to_string(),
+        "c11" => "scripted service A (real Service event loop) issues a FINDNODE (lookup for a target in a chosen log2-distance class from the peer, user-designated distance list, or internal ENR request) and receives NODES packets that are either produced by a second real service B (the honest responder, table filled from 640 fixed identities) or scripted (off-distance records, requester's own record, duplicates, arbitrary totals, packets after completion); in two thirds of the lookup / ENR-request cases the same peer is then asked again (the lookup is repeated, the peer announces a newer record again) and answers with or without an off-distance record - after every first packet with an off-distance record the responder's node id and IP must be on the ban list until at least the configured ban duration after that packet (for ever, 10 min, 1 h, or 25 ms with a real sleep past the end of the first ban: an expired entry stays listed until the handler's sweep); non-trivial = at least one record reached the distance filter; distinct = new hash of (distance list shape, per-packet outcome)".to_string(),
+        "c12" => "sequences of session reports, NODES answers to lookups (discovered records), pings, pongs, request failures, unverifiable-record reports and user calls (add_enr, remove_node, disconnect_node) against a scripted service in a random IP mode with a random table filter; record shapes: no address, v4, v6, both, mapped v6, lower/equal/higher seq; scripted openings (idx mod 4 = 1: full bucket + pending candidate / IP-limit scenario, mod 4 = 3: who-are-you queries around a lookup, mod 8 = 2: the PONG of a pending candidate - admitted after a removed entry's or a refused session's ping is still in flight - while a running lookup holds an older record of it from a NODES answer, then the pending timeout); the monitor looks at entries and pending slots after every step; non-trivial = the table changed at least 3 times; distinct = new hash of the op/result trace".to_string(),
+        _ => "FINDNODE requests (distance lists: empty, duplicates, unsorted, out of range, long) with request ids of 0..8 bytes and PINGs from random addresses (port 0 included), each request first passed through the real message codec as the handler does (a request whose distances are all <= 256 must decode to itself; lists with larger values are refused by the decoder and handed over behind it), against a scripted service whose table holds records of 100..300 bytes; every emitted NODES response is encoded, sealed with AES-GCM and packet-encoded by the real codec; non-trivial = some answer had at least one record; distinct = new hash of the answer shapes".to_string(),
     };
     sum.write(&o.out);
     println!(
